@@ -431,12 +431,12 @@ def prepare(ctx, need_harness=True, race=False):
     return info
 
 
-def run_harness(ctx, harness, mode, cases, timeout=1200, tag=""):
+def run_harness(ctx, harness, mode, cases, timeout=1200, tag="", env_extra=None):
     inp = os.path.join(ctx.workdir, "in-%s%s.json" % (mode, tag))
     outp = os.path.join(ctx.workdir, "out-%s%s.json" % (mode, tag))
     json.dump(cases, open(inp, "w"))
     try:
-        rc, log = sh([harness, mode, inp, outp], timeout=timeout, env=GOENV)
+        rc, log = sh([harness, mode, inp, outp], timeout=timeout, env=dict(GOENV, **(env_extra or {})))
     except subprocess.TimeoutExpired:
         return None, "harness process (mode %s) did not finish within %d s: the code under test hangs" % (mode, timeout)
     if rc != 0 or not os.path.exists(outp):
